@@ -17,14 +17,17 @@ WIRES = {
             # necessary for "each change is reported with the correct new state" as well
             ("C07-YIELD-REQUESTS", 'coro.push_yield_rule(run, f, "C07-YIELD-REQUESTS")'),
             ("C07-YIELD-DRAIN", 'coro.drain_rule(run, f, "C07-YIELD-DRAIN")'),
-            ("C07-REQUEST-PAIRING", 'wave2.request_pairing_rule(run, f, "C07-REQUEST-PAIRING")')],
+            ("C07-REQUEST-PAIRING", 'wave2.request_pairing_rule(run, f, "C07-REQUEST-PAIRING")'),
+            ("C07-NO-EXIT-BEFORE-YIELD", 'wave3.no_exit_before_yield_rule(run, f, "C07-NO-EXIT-BEFORE-YIELD")')],
     "C08": [("C08-CURRENT-ENDS", 'wave2.current_ends_rule(run, f, "C08-CURRENT-ENDS")'),
             # a yield misreported (Cancelled instead of Suspend(y, t), or with another coroutine's delay) loses the yielded value:
             # the per-yield request rules of C09 are necessary conditions of C08 as well
             ("C08-YIELD-REQUESTS", 'coro.push_yield_rule(run, f, "C08-YIELD-REQUESTS")'),
             ("C08-YIELD-DRAIN", 'coro.drain_rule(run, f, "C08-YIELD-DRAIN")'),
-            ("C08-REQUEST-PAIRING", 'wave2.request_pairing_rule(run, f, "C08-REQUEST-PAIRING")')],
-    "C09": [("C09-REQUEST-PAIRING", 'wave2.request_pairing_rule(run, f, "C09-REQUEST-PAIRING")')],
+            ("C08-REQUEST-PAIRING", 'wave2.request_pairing_rule(run, f, "C08-REQUEST-PAIRING")'),
+            ("C08-NO-EXIT-BEFORE-YIELD", 'wave3.no_exit_before_yield_rule(run, f, "C08-NO-EXIT-BEFORE-YIELD")')],
+    "C09": [("C09-REQUEST-PAIRING", 'wave2.request_pairing_rule(run, f, "C09-REQUEST-PAIRING")'),
+            ("C09-NO-EXIT-BEFORE-YIELD", 'wave3.no_exit_before_yield_rule(run, f, "C09-NO-EXIT-BEFORE-YIELD")')],
     "C10": [("C10-PROMOTION-EXITS", 'wave3.promotion_exits_rule(run, f, "C10-PROMOTION-EXITS")')],
     "C11": [("C11-BROADCAST-EVERY-CHANGE", 'wave3.change_broadcast_rule(run, f, "C11-BROADCAST-EVERY-CHANGE")'),
             ("C11-WORKER-EXIT", 'wave2.worker_exit_rule(run, f, "C11-WORKER-EXIT")')],
